@@ -1717,7 +1717,7 @@ fn main() {
     run_batch(&mut rep, &args, &first, 211);
 
     // random stacks, sharded
-    let (shards, per_shard, chunk) = if args.thorough() { (12u64, 150_000usize, 25_000usize) } else { (3u64, 14_000usize, 14_000usize) };
+    let (shards, per_shard, chunk) = if args.thorough() { (12u64, 400_000usize, 25_000usize) } else { (3u64, 60_000usize, 20_000usize) };
     let forks: Vec<Rng> = (0..shards).map(|i| rng.fork(i)).collect();
     let reports: Vec<Report> = std::thread::scope(|sc| {
         let handles: Vec<_> = forks
@@ -1746,7 +1746,7 @@ fn main() {
     // a disagreement with the model but no oracle failure: search the neighbourhood with the oracle only
     if !rep.disagreements.is_empty() && rep.oracle_failures.is_empty() {
         let seeds: Vec<Case> = rep.disagreements.iter().filter_map(|d| Case::decode(&d.case)).take(5).collect();
-        let budget = 10 * 3 * 14_000u64;
+        let budget = 10 * 3 * 60_000u64;
         let mut srng = rng.fork(0x5ea1c4);
         if !seeds.is_empty() {
             for i in 0..budget {
